@@ -181,11 +181,36 @@ func main() {
 				fine := func() ast.Stmt {
 					return &ast.ExprStmt{X: &ast.CallExpr{Fun: sel("vsched", "FinePoint")}}
 				}
+				// ... and the instant after every deferred call has returned: a
+				// `defer vsched.FinePoint()` in front of each defer statement runs right
+				// after that statement's call on the way out (arguments of the original
+				// defers are evaluated where they always were)
+				withDeferPoints := func(list []ast.Stmt) []ast.Stmt {
+					var out []ast.Stmt
+					for _, st := range list {
+						if _, ok := st.(*ast.DeferStmt); ok {
+							out = append(out, &ast.DeferStmt{Call: &ast.CallExpr{Fun: sel("vsched", "FinePoint")}})
+						}
+						out = append(out, st)
+					}
+					return out
+				}
 				for _, d := range af.Decls {
 					fd, ok := d.(*ast.FuncDecl)
 					if !ok || fd.Body == nil || fd.Name.Name == "init" {
 						continue
 					}
+					ast.Inspect(fd.Body, func(n ast.Node) bool {
+						switch b := n.(type) {
+						case *ast.BlockStmt:
+							b.List = withDeferPoints(b.List)
+						case *ast.CaseClause:
+							b.Body = withDeferPoints(b.Body)
+						case *ast.CommClause:
+							b.Body = withDeferPoints(b.Body)
+						}
+						return true
+					})
 					ast.Inspect(fd.Body, func(n ast.Node) bool {
 						if fl, ok := n.(*ast.FuncLit); ok && fl.Body != nil {
 							fl.Body.List = append([]ast.Stmt{fine()}, fl.Body.List...)
